@@ -1116,6 +1116,61 @@ func TestVerif_C20_SigAfterRetry(t *testing.T) {
 	})
 }
 
+// C20: ServerName takes effect on the wire: a configured name is the SNI of every connection's ClientHello, and
+// "random" (any case) is "randomised for every connection made" (README): never sent literally, and the connections
+// of a run do not all carry one and the same generated name.
+func TestVerif_C20_ServerNames(t *testing.T) {
+	gen := func(rt *rapid.T) frScenario {
+		sc := frGen(2, true)(rt)
+		sc.Client.NumConn = rapid.IntRange(0, 6).Draw(rt, "nc")
+		sc.Client.ServerName = rapid.SampledFrom([]string{"random", "random", "RANDOM", "rAnDoM", "www.bing.com", "a.example.org", "randomised.example"}).Draw(rt, "sn2")
+		return sc
+	}
+	vk.Run(t, "C20", "ServerNames", gen, frRun(t, func(fr *frResult) (vk.Result, error) {
+		res := vk.Result{}
+		var names []string
+		for _, l := range fr.cliLinks {
+			recs, _ := vk.SplitTLSRecords(l.Wire(vk.AtoB))
+			if len(recs) == 0 {
+				continue
+			}
+			ch, err := vk.ParseClientHelloHandshake(recs[0].Body)
+			if err != nil {
+				return res, vk.Violatef("connection %d does not start with a ClientHello: %v", l.ID, err)
+			}
+			if len(ch.SNI) != 1 {
+				return res, vk.ViolateSig("servername", "connection %d: the ClientHello carries %d server names (%q), configured ServerName=%q", l.ID, len(ch.SNI), ch.SNI, fr.sc.Client.ServerName)
+			}
+			names = append(names, ch.SNI[0])
+		}
+		cfg := fr.sc.Client.ServerName
+		if !strings.EqualFold(cfg, "random") {
+			for i, n := range names {
+				if n != cfg {
+					return res, vk.ViolateSig("servername", "connection %d: ClientHello names %q, configured ServerName=%q", i, n, cfg)
+				}
+			}
+			res.Labels = append(res.Labels, "fixed-name")
+			return res, nil
+		}
+		distinct := map[string]bool{}
+		for i, n := range names {
+			if strings.EqualFold(n, "random") {
+				return res, vk.ViolateSig("servername-random", "connection %d: ServerName=%q must be replaced by a generated name, the ClientHello names %q", i, cfg, n)
+			}
+			distinct[n] = true
+		}
+		if len(names) >= 3 {
+			res.NonTrivial = true
+			res.Labels = append(res.Labels, "random-name-over->=3-connections")
+			if len(distinct) == 1 {
+				return res, vk.ViolateSig("servername-random", "ServerName=%q: all %d connections made carry the same generated name %q; the name is to be randomised for every connection made", cfg, len(names), names[0])
+			}
+		}
+		return res, nil
+	}))
+}
+
 func isViolation(err error) bool { _, ok := err.(*vk.Violation); return ok }
 
 // frFingerprint summarises the shape of a ClientHello: cipher suites in order and the set of extension types, GREASE
